@@ -12,12 +12,11 @@ rewriting meets, including in nodes produced by earlier rewrites
 | flag | region | finding |
 |---|---|---|
 | `zero-arg-expr` | matched `assert()` in expression position | F18 |
-| `nested-single` | matched call whose only kept argument is itself a matched call: the visitor does not re-apply the hook to the node it just produced, the inner call survives | F30 |
-| `bare-local` + `underscore` | statement rewritten to a bare `local _ = …` in a program that mentions the variable `_` | F31 |
-| `single-kept-expr` | profiling call in expression position with exactly one kept argument: `e and nil` is `false` when `e` is `false` | F32 |
-| `multi-position` | profiling call as the last element of an argument / return / table list: becomes one `nil` instead of no value | F32 |
-| `shadowed-prefix` | injected identifier in prefix position under a shadowing local | F19 |
+| `multi-position` | profiling call as the last element of an argument / return / table list: becomes one `nil` instead of no value | F33 |
 | `global-write` | the program assigns the targeted global itself (`assert = …`, `function assert() … end`, `NAME = …`, `_G.NAME = …`, `debug.profilebegin = …`): outside the property's quantifier, the rule cannot know | – |
+
+Fixed in /repo and no longer excused (the flags are gone): F19 (`shadowed-prefix`), F30 (`nested-single`),
+F31 (`underscore-leak`), F32 (`single-kept-expr`).
 -/
 namespace DarkluaModel.C17
 open Rules Rules.RemoveCallMatch
@@ -40,11 +39,8 @@ def flagsOf : Rule → Block → List String
   | .removeDebugProfiling p, b => (RemoveCallMatch.run RemoveDebugProfiling.matcher p b).2.flags
   | .injectGlobalValue n v, b => (InjectValue.run n v b).2.flags
 
-/-- the defect regions a program touches (`bare-local` / `underscore` only count together) -/
-def defects (r : Rule) (b : Block) : List String :=
-  let fs := flagsOf r b
-  let leak := fs.contains "bare-local" && fs.contains "underscore"
-  (fs.filter fun f => f != "bare-local" && f != "underscore") ++ (if leak then ["underscore-leak"] else [])
+/-- the defect regions a program touches -/
+def defects (r : Rule) (b : Block) : List String := flagsOf r b
 
 /-- `H₁₇`: the program is outside every listed defect region of the rule -/
 def inHypothesis (r : Rule) (b : Block) : Bool := (defects r b).isEmpty
